@@ -183,7 +183,7 @@ func (x *Exec) rangeInstr(in *ssa.Range) {
 	}
 	_, _, ks, _ := e.mapKeysFor(mt)
 	// iterator = ghost visited set, kept as a local ghost heap key per Range instruction
-	k := fmt.Sprintf("L:iter_%s_%d", sanitize(in.Name()), in.Block().Index)
+	k := x.iterKey(in)
 	e.heapSort[k] = fmt.Sprintf("(Array %s Bool)", ks)
 	x.st.H[k] = fmt.Sprintf("((as const (Array %s Bool)) false)", ks)
 	x.vals[in] = Val{T: k, Sort: "ITER", GT: in.X.Type()}
@@ -270,4 +270,15 @@ func (x *Exec) hasSourceName(name string) bool {
 		}
 	}
 	return x.srcNames[name]
+}
+
+// iterKey: the ghost-state key of a map iterator. Inside a helper executed in
+// place the key carries the helper's name, so it cannot collide with an
+// iterator of the caller.
+func (x *Exec) iterKey(rg *ssa.Range) string {
+	pre := ""
+	if x.inlined && x.fn != nil {
+		pre = sanitize(shortName(x.fn)) + "_"
+	}
+	return fmt.Sprintf("L:iter_%s%s_%d", pre, sanitize(rg.Name()), rg.Block().Index)
 }
